@@ -21,7 +21,7 @@ CHECKS = {
  "C08": ("invariant monitor: bounded cycle search over the engine's substitution set after every step of all variable-pair unification sequences up to a length bound, then replace_variables/Display must return; in situ after every successful unification of real searches",
          "All sequences of variable-to-variable unifications up to the bound are executed; after each successful step the binding graph is searched for a cycle and re-aliasing must not add a binding. Random mixed sequences extend reach. A hang or stack overflow of the worker is isolated and reported.",
          "monitor's own walk is bounded so it cannot hang; cases needing an occurs check are skipped", "DESIGN.md 5/C08"),
- "C09": ("invariant + metamorphic runtime monitor: `$_` against every universe term (bindings unchanged), nested `$_` pairs vs reference, and insertion of `$V = $_` steps into unification sequences; in situ on every unification event with a `$_` side",
+ "C09": ("invariant + metamorphic runtime monitor: `$_` against every universe term (bindings unchanged), nested `$_` pairs vs reference, and insertion of `$V = $_` steps into unification sequences; in situ on every unification event with a `$_` side; at program level the answers of programs made rich in `$_` (every singleton variable written as `$_`) vs the reference",
          "Top-level `$_` must succeed and leave the substitution set entry-wise unchanged under every prior; nested occurrences are compared with the reference; inserting a `$_` unification at any point of a sequence must not change later successes or values.",
          "trusts the reference unifier for nested wildcard positions", "DESIGN.md 5/C09"),
  "C01": ("history + reference-model runtime monitor: answer sequence of next_solution()/solve_all() vs an independent depth-first SLD interpreter, over a complete enumeration of small program shapes plus seeded random stratified programs",
@@ -30,13 +30,13 @@ CHECKS = {
  "C02": ("history + reference-model runtime monitor: answers of programs with `!` at every body position vs a reference interpreter implementing the documented cut",
          "Every small program shape with a cut at every position of conjunctions and disjunction arms (followed by succeeding and failing goals, with and without later clauses, called from conjunctions that backtrack into the cutting predicate) and random larger programs are executed; answers must equal the reference with the documented cut. The reference counts how often a cut ran with pending clauses / choice points / was followed by failure, and the check reports those counts.",
          "trusts the reference interpreter's reading of the documented cut; cut inside not(...) is not generated", "DESIGN.md 5/C02"),
- "C03": ("history + reference-model runtime monitor: answers of programs containing not(G) vs reference negation as failure",
+ "C03": ("history + reference-model runtime monitor: answers of programs containing not(G) vs reference negation as failure (complete not-focused family + random programs), plus a direct probe of not(G) solution nodes built with make_solution_node (outcome, bindings unchanged, no second success)",
          "Programs whose bodies contain not(G) for G a call, conjunction, disjunction, unification or comparison, with the variables of G bound or unbound at the call and G having 0, 1 or many answers, are executed; the answer sequences (which expose any leaked binding of G and any second success of not) must equal the reference.",
          "trusts the reference interpreter", "DESIGN.md 5/C03"),
  "C04": ("history + reference-model runtime monitor over captured stdout: bytes written between consecutive next_solution() returns vs the reference's output events",
          "fd 1 of the worker is redirected to a file; after every API call the new bytes are read, so the observed history is `output, answer, output, answer, ...`. It must equal, segment by segment, what the reference search writes for print / print_list / nl placed before, between and after backtracking goals, in disjunction arms, inside not and after cut.",
          "formatting corners the statement leaves open (non-ground arguments, marker/argument count mismatch, floats without fraction) are out of domain", "DESIGN.md 5/C04"),
- "C05": ("invariant monitor over call histories: after the first None / `No more.`, further requests on the same query must return None / `No more.` and write zero bytes",
+ "C05": ("invariant monitor over call histories: after the first None / `No more.`, further requests on the same query through next_solution(), solve() and solve_all() must report no answer and write zero bytes; likewise after solve_all() has listed everything",
          "Every query of the C01-C04 corpora (not, cut, print, nested and/or) is driven to exhaustion and then asked again 3 (quick) / 5 (thorough) times through next_solution() and twice through solve(); stdout is captured around every request.",
          "needs no reference model; queries that reach the answer cap before exhaustion are skipped and counted", "DESIGN.md 5/C05"),
  "C10": ("invariant runtime monitor: skeleton equality, id consistency and freshness of every renaming, at the API (recreate_variables on terms / goals / rules, get_rule, make_query, parse_query) and in situ on every clause renaming of real searches via the verif-hooks Rename event",
@@ -63,7 +63,7 @@ CHECKS = {
  "C17": ("differential runtime monitor: count, include/exclude, functor and join vs per-statement reference implementations, enumerated argument grids plus random cases",
          "count over element pairs incl. bound tails; include/exclude over element pairs x 6 filter patterns with the filter variable reported (so a leaked binding shows); functor over arities 0-4 x names x exact / prefix* / variable patterns in 4 forms; join over word / punctuation triples and lists with bound variables.",
          "cases the statement leaves open (open lists, non-list arguments, join starting with punctuation) are out of domain", "DESIGN.md 5/C17"),
- "C18": ("robustness monitor: every input string is handed to all 10 parser entry points under catch_unwind with a panic hook; worker death or lack of progress is isolated by the supervisor and re-run three times",
+ "C18": ("robustness monitor: every input string (exhaustive short strings, deeply nested texts, canonical and mutated texts, random strings, and 8 inputs of 10-400 kB parsed on a thread with the default 8 MB stack) is handed to all 10 parser entry points under catch_unwind with a panic hook; worker death or lack of progress is isolated by the supervisor and re-run three times; two recorded stack-overflow findings are reported as KNOWN-FINDING",
          "All strings up to length 3 over the 12-character syntax alphabet, canonical texts, 1-4-edit mutations of them and random strings up to 160 characters; a panic is a violation keyed by (entry point, source file, panic kind); an abort, stack overflow or hang is reproduced in isolation before it is reported.",
          "\"bounded time\" is decided as: returns within the per-case watchdog on inputs <= 160 characters", "DESIGN.md 5/C18"),
  "C19": ("differential + round-trip runtime monitor: parse -> Display vs an independent canonical printer, then parse(Display) == value, over enumerated grammar derivations and random texts",
@@ -76,10 +76,10 @@ CHECKS = {
          "Generated programs are written to files with random line breaks after `:-` `,` `;` `=` (also inside argument lists), indentation, blank lines and `#` `%` `//` comments outside parentheses and brackets; the file must load and format_kb plus the Debug form of every predicate's rules must equal the rule-by-rule knowledge base.",
          "only rules that parse_rule accepts are used (acceptance itself is C19's subject)", "DESIGN.md 5/C21"),
  "C22": ("metamorphic runtime monitor over process histories: each step of a multi-query history vs the same (query, driver) run as the first action of a fresh process",
-         "One process per history: all ordered pairs over a 16-step alphabet (12 queries incl. not / cut / print / append and three whose search exceeds the 1 s limit; drivers next_solution to exhaustion, abandon after k answers, re-ask after exhaustion, solve x n, solve_all), all triples over a sub-alphabet and random longer histories; answers and captured output of every step must equal its fresh-process baseline.",
+         "One process per history: all ordered pairs over a 26-step alphabet (21 queries incl. not / cut / print with constant and variable-held formats / list built-ins / arithmetic / recursion, three whose search exceeds the 1 s limit and one that searches for seconds without a timer and answers only at the very end; drivers next_solution to exhaustion, abandon after k answers, re-ask after exhaustion, solve x n, solve_all), all triples over a sub-alphabet and random longer histories; answers and captured output of every step must equal its fresh-process baseline.",
          "slow searches are sized once per run on the idle machine; a query abandoned midway is never resumed after a later query was built", "DESIGN.md 5/C22"),
  "C23": ("history + reference-model monitor with a monotonic clock: solve/solve_all strings vs the true answer sequence under the real timer thread",
-         "Fast generated queries must be complete and never report a timeout; slow searches sized at run time to exceed the limit many times over (answers first then a long silent search; not(...) over a search that succeeds only at its very end) must return a prefix of the true sequence, then the timeout message as last element, never before 1000 ms have elapsed.",
+         "Fast generated queries must be complete and never report a timeout; slow searches sized at run time to exceed the limit many times over (answers first then a long silent search; not(...) over a search that succeeds only at its very end) must return a prefix of the true sequence, then the timeout message as last element, never before 1000 ms have elapsed; a fast query prepared before another query timed out must afterwards be answered truthfully, without a timeout report.",
          "only timing directions that are sound on a loaded machine are verdicts; a fast query that really took >= 1000 ms is inconclusive", "DESIGN.md 5/C23"),
  "C24": ("undefined-behaviour interpreter + sanitizer: the FFI-free API driver is run under Miri (Stacked Borrows; thorough adds Tree Borrows and scheduler-seed variation on the timer cases) and, in thorough, natively under AddressSanitizer",
          "Generated programs with a cut at every body position, not, nested and/or, re-asking after exhaustion, parsing of valid and mutated text, several queries per process, solve/solve_all under the real timer thread and a 1 ms timer firing during and after searches are interpreted by Miri in 16 (quick) / 160 (thorough) separate processes so that one report cannot mask another; any `Undefined Behavior` diagnostic (aliasing violation, data race, out-of-bounds, use-after-free) is a violation keyed by kind and first frame in /repo/src. The evidence lists API calls interpreted, cuts executed, timer firings observed and every process's exit status.",
